@@ -235,7 +235,7 @@ def pairing(ctx, db):
                     if nl:
                         owner = nl[1]
             dels = [it for it in tr if it.k == 'call' and norm(it.get('callee')) == 'operator delete']
-            rel = [it for it in tr if it.k == 'call' and atomic.is_atomic_call(it) and atomic.opname(it) == 'store' and (it.get('args') or [{}])[0].get('const') == 0]
+            rel = [it for it in tr if it.k == 'call' and atomic.is_atomic_call(it) and atomic.opname(it) in ('store', 'operator=') and (it.get('args') or [{}])[0].get('const') == 0]
             n += 1
             if owner is True and (dels or len(rel) != 1):
                 bad = bad or 'an owned (shared) block is deleted / its busy flag is not released exactly once'
@@ -349,9 +349,11 @@ def reuse(ctx, db):
             grow = None
             for b in tr:
                 if b.k == 'branch':
-                    m = re.fullmatch(r'\(param:sz (>|<=|>=|<) this->_capacity\)', b.path or '')
-                    if m:
-                        o = m.group(1)
+                    pn_ = re.escape('param:' + (f['params'][0]['name'] if f.get('params') else 'sz'))
+                    m = re.fullmatch(r'\(%s (>|<=|>=|<) this->_capacity\)' % pn_, b.path or '')
+                    m2 = re.fullmatch(r'\(this->_capacity (>|<=|>=|<) %s\)' % pn_, b.path or '')
+                    if m or m2:
+                        o = m.group(1) if m else {'<': '>', '>': '<', '<=': '>=', '>=': '<='}[m2.group(1)]
                         if (o == '>' and b.val) or (o == '<=' and not b.val):
                             grow = True
                         elif (o == '>' and not b.val) or (o == '<=' and b.val):
@@ -372,13 +374,20 @@ def reuse(ctx, db):
     for f in db.need('cocls::reusable_storage_mtsafe::alloc')[:1]:
         ops = [e for e in f.events() if e.k == 'call' and atomic.is_atomic_call(e) and norm(e.get('field') or '') == 'cocls::reusable_storage_mtsafe::_busy']
         ok = len(ops) == 1 and atomic.opname(ops[0]) == 'exchange' and (ops[0].get('args') or [{}])[0].get('const') == 1
+        cas = False
+        if not ok and len(ops) == 1 and atomic.opname(ops[0]) == 'compare_exchange_strong' and len(ops[0].get('args') or []) >= 2 and ops[0]['args'][1].get('const') == 1:
+            # the same claim spelled as a strong compare-exchange false -> true: it succeeds exactly when the flag was clear
+            exp_ = ops[0]['args'][0].get('path') or ''
+            d_ = [e for e in f.events() if e.k == 'decl' and e.get('var') in (exp_, exp_.replace('local:', ''))]
+            w_ = [e for e in f.events() if e.k == 'write' and e.get('path') == exp_]
+            cas = ok = len(d_) == 1 and d_[0].get('const') == 0 and not w_
         ctx.ob(rid, f, f['key'], ok, 'the busy flag is claimed by a single exchange(true) (found %s)' % [atomic.opname(o) for o in ops], desc='busy flag not claimed by a single atomic exchange(true)')
         bad = None
         for tr in [t for t in T.traces(f) if live(t)]:
             was_busy = None
             for it in tr:
                 if it.k == 'branch' and ops and it.get('depth', 0) == 0 and it.cond_ev == ops[0].get('id'):
-                    was_busy = bool(it.val)
+                    was_busy = bool(it.val) != cas
             shared = any(it.k == 'call' and norm(it.get('callee')) == 'cocls::reusable_storage::alloc' for it in tr)
             if was_busy is None:
                 bad = bad or 'the outcome of the claim is not tested'
@@ -418,7 +427,7 @@ def routing(ctx, db):
     seen = set()
     for f in db.need('cocls::custom_allocator_base::operator delete'):
         cs = [e for e in f.events() if e.k == 'call' and norm(e.get('callee') or '').endswith('::dealloc')]
-        ok = len(cs) == 1 and [a.get('path') for a in cs[0].get('args', [])] == ['param:ptr', 'param:sz']
+        ok = len(cs) == 1 and [a.get('path') for a in cs[0].get('args', [])] == ['param:' + p_['name'] for p_ in f['params'][:2]] and len(f['params']) >= 2
         k = (f['key'], ok)
         if k in seen:
             continue
